@@ -623,3 +623,12 @@ func replay(run *evid.Run, scenarios []*Scenario, file string) {
 	fmt.Fprintln(os.Stderr, "scenario not found:", v.Witness.Scenario)
 	os.Exit(2)
 }
+
+// InProcess explores one scenario in the calling process (no sharding); used by the
+// engine self-test.
+//
+//go:norace
+func InProcess(sc *Scenario) (Stats, []Violation) {
+	r := exploreScenario(sc, 0, 1, time.Time{})
+	return r.Stats, r.Violations
+}
